@@ -148,13 +148,16 @@ fn c03_text_roundtrip_bounded(seed: u64) {
         let tail = (i & 0x7fff).wrapping_mul(0x9E37_79B9_7F4A_7C15 ^ seed.wrapping_mul(0x2545_F491_4F6C_DD1D)) as u32;
         let body = if i & 1 == 0 { (0x7fff_ffffu32 >> reg) ^ (tail >> (reg + 1)) } else { (0x4000_0000u32 >> reg) | (tail >> (reg + 2)) };
         let bits = if i & 2 == 0 { body } else { body.wrapping_neg() };
+        // the special patterns first (NaR, zero, maxpos, minpos and their negatives/neighbours), then the structured ones
+        const SPECIAL: [u32; 10] = [0x8000_0000, 0, 0x7fff_ffff, 1, 0x8000_0001, 0xffff_ffff, 0x7fff_fffe, 2, 0x4000_0000, 0xc000_0000];
+        let bits = if (i as usize) < SPECIAL.len() { SPECIAL[i as usize] } else { bits };
         let p = P32E2::from_bits(bits);
         (p.to_string().parse::<P32E2>().map(|q| q == p).unwrap_or(false), true)
     });
     let mut fails = r8.2.clone();
     fails.extend(r16.2.iter().map(|x| x | (1 << 32)));
     fails.extend(r32.2.iter().map(|x| x | (2 << 32)));
-    let s = |p: P32E2| format!("{:#x} -> '{}' -> {:#x}", p.to_bits(), p.to_string(), p.to_string().parse::<P32E2>().unwrap().to_bits());
+    let s = |p: P32E2| format!("{:#x} -> '{}' -> {:?}", p.to_bits(), p.to_string(), p.to_string().parse::<P32E2>().map(|q| q.to_bits()).ok());
     report("c03_text_roundtrip_bounded", "B", (r8.0 + r16.0 + r32.0, r8.1 + r16.1 + r32.1, fails),
            &[s(P32E2::from_bits(0x4000_0001)), s(P32E2::NAR), s(P32E2::from_bits(0x8000_0001)), s(P32E2::from_bits(0x0000_0003))]);
 }
